@@ -178,6 +178,8 @@ func runSST(args []string) error {
 				return out, "err:" + err.Error()
 			}
 			out = append(out, []any{rk(k), vt(v)})
+			pokeReturned(k)
+			pokeReturned(v)
 			if len(out) > 100000 {
 				return out, "err:iterator does not end"
 			}
@@ -343,6 +345,7 @@ func runSST(args []string) error {
 					tr.emit(M{"t": "get", "k": p, "r": "err:" + err.Error()})
 				default:
 					tr.emit(M{"t": "get", "k": p, "r": vt(v)})
+					pokeReturned(v)
 				}
 				it, err2 := rd.ScanStartingAt(keys[p])
 				emitScan(M{"t": "scanfrom", "k": p}, it, err2)
@@ -485,11 +488,14 @@ func runSSTDamage(args []string) error {
 
 		probe := func(kind string, off, val int, content []byte) {
 			os.WriteFile(dataPath, content, 0o600)
-			for _, ml := range [][2]string{{"load", "slice"}, {"read", "slice"}, {"read", "map"}, {"read", "skiplist"}, {"read", "disk"}, {"load", "disk"}} {
+			for _, ml := range [][2]string{{"load", "slice"}, {"read", "slice"}, {"read", "map"}, {"read", "skiplist"}, {"read", "disk"}, {"load", "disk"}, {"readrev", "slice"}} {
 				mode, loader := ml[0], ml[1]
 				ropts := []sstables.ReadOption{sstables.ReadBasePath(dir), sstables.ReadWithKeyComparator(cmp)}
 				if mode == "read" {
 					ropts = append(ropts, sstables.SkipHashCheckOnLoad(), sstables.EnableHashCheckOnReads())
+				}
+				if mode == "readrev" { // the same two options in the other order
+					ropts = append(ropts, sstables.EnableHashCheckOnReads(), sstables.SkipHashCheckOnLoad())
 				}
 				switch loader {
 				case "map":
